@@ -15,6 +15,7 @@ import (
 	"sync/atomic"
 	"testing"
 	"testing/synctest"
+	"time"
 )
 
 type freeRun struct {
@@ -31,6 +32,9 @@ func (f *freeRun) waitIdle() {
 	f.sem <- struct{}{}
 	synctest.Wait()
 	<-f.sem
+	// polling loops around WaitIdle must let virtual time pass, or threads whose start was delayed
+	// by spawn would never run
+	time.Sleep(5 * time.Nanosecond)
 }
 
 func (f *freeRun) choose(n int) int {
@@ -40,6 +44,22 @@ func (f *freeRun) choose(n int) int {
 		return 0
 	}
 	return f.rng.Intn(n)
+}
+
+// spawn runs a harness thread.  Half of them first sleep a few virtual nanoseconds: inside the
+// bubble such a goroutine resumes only once every other goroutine is durably blocked, which
+// yields orders ("this thread ran last") that plain free running practically never produces.
+func (f *freeRun) spawn(fn func()) {
+	f.mu.Lock()
+	delay := 0
+	if f.rng.Intn(2) == 0 {
+		delay = 1 + f.rng.Intn(3)
+	}
+	f.mu.Unlock()
+	if delay > 0 {
+		time.Sleep(time.Duration(delay))
+	}
+	f.guard(fn)
 }
 
 func (f *freeRun) guard(fn func()) {
@@ -55,22 +75,38 @@ func (f *freeRun) guard(fn func()) {
 
 // RunFree runs main once, free-running, in a fresh bubble; seed drives the harness-visible choices.
 // It returns a description of how the run ended ("" = main returned and the bubble emptied).
+// A bubble's virtual clock only advances when every goroutine is durably blocked, so a run in
+// which a goroutine waits for a sync.Mutex held across a stalled operation while another waits
+// for time never ends: after freeRunWatchdog of real time such a run is abandoned (its goroutines
+// stay parked) and reported as such.
 func RunFree(t *testing.T, seed int64, main func()) (ended string) {
-	defer func() {
-		freeCur.Store(nil)
-		if p := recover(); p != nil {
-			ended = fmt.Sprint(p)
-		}
+	done := make(chan string, 1)
+	go func() {
+		ended := ""
+		defer func() {
+			if p := recover(); p != nil {
+				ended = fmt.Sprint(p)
+			}
+			done <- ended
+		}()
+		synctest.Test(t, func(t *testing.T) {
+			f := &freeRun{rng: rand.New(rand.NewSource(seed)), sem: make(chan struct{}, 1)}
+			freeCur.Store(f)
+			f.guard(main)
+			f.mu.Lock()
+			if len(f.panics) > 0 {
+				ended = "panic: " + f.panics[0]
+			}
+			f.mu.Unlock()
+		})
 	}()
-	synctest.Test(t, func(t *testing.T) {
-		f := &freeRun{rng: rand.New(rand.NewSource(seed)), sem: make(chan struct{}, 1)}
-		freeCur.Store(f)
-		f.guard(main)
-		f.mu.Lock()
-		if len(f.panics) > 0 {
-			ended = "panic: " + f.panics[0]
-		}
-		f.mu.Unlock()
-	})
+	select {
+	case ended = <-done:
+	case <-time.After(freeRunWatchdog):
+		ended = "abandoned: no progress possible (a goroutine waits for a mutex while the bubble waits for time)"
+	}
+	freeCur.Store(nil)
 	return ended
 }
+
+const freeRunWatchdog = 20 * time.Second
